@@ -28,7 +28,7 @@ func init() {
 		Name: "errsel", Property: "C08", Level: "exploration",
 		Main:       errselMain,
 		MaxSimTime: time.Minute,
-		Rule: "per run the tape draws a mount tree of 1-4 sub-apps below the root (prefixes from /api /api-v2 /api/v1 /apix /a /v1 /web, nested mounts, mounts from groups /g or /api, " +
+		Rule: "per run the tape draws a mount tree of 1-4 sub-apps below the root (prefixes from /api /api-v2 /api/v1 /apix /a /v1 /web /Admin /Admin/Sub, nested mounts, mounts from groups /g or /api, " +
 			"top-down / bottom-up / shuffled mount order, each app with or without its own ErrorHandler, optional pass-through middleware before and around the routes), " +
 			"1-12 requests (paths inside, beside, between and one or two bytes short of the prefixes; GET or POST; error raised by a route, a root / group / sub-app middleware, after the chain returned, or by the router: 404 / 405; " +
 			"error value *fiber.Error with a code, package-level fiber error, plain error; handler that fails returning a plain error, a *fiber.Error of a 4xx / 5xx code or a wrapped one; " +
@@ -37,7 +37,7 @@ func init() {
 			"distinct = hash of (tree, per request (path, method, site, error kind, handlers that ran per build)); " +
 			"non-trivial = some request path had at least two mount prefixes as string prefixes, or was owed to a sub-application's handler",
 		Assumptions: []string{
-			"paths and prefixes are lower case without trailing slash (routing normalisation is not part of the question); no two apps share one full mount prefix; no app is mounted twice",
+			"paths and prefixes have no trailing slash and a request path is always spelled like the mount prefix it lies below, also for the prefixes with upper-case letters (routing normalisation is not part of the question); no two apps share one full mount prefix; no app is mounted twice",
 			"where an error is raised is decided by what actually ran (the sites record it): the oracle never predicts routing, except that an unregistered path yields the router's 404 and a POST to a path registered for GET its 405",
 			"only the statement's clauses are compared: which configured handler ran, how often, with which error value; the status under the default handler; 500 after a failing handler. Bodies and the status written by a succeeding custom handler are logged, not compared",
 			"requests are sequential (the choice involves no state shared between requests); the nondeterminism explored is the map iteration order",
@@ -153,10 +153,13 @@ func esErrName(kind, code int) string {
 func errselMain(s *simrt.Sim, info *harness.RunInfo) {
 	s.SetPreempt(0)
 	safe := s.Chance(300)
-	alphabet := []string{"/api", "/api-v2", "/api/v1", "/apix", "/a", "/v1", "/web"}
+	// "/Admin", "/Admin/Sub": prefixes that are not all lower case. Request paths below them are spelled
+	// exactly like the prefix (whether another spelling of the path belongs to the mount is a question
+	// of routing normalisation, which the statement leaves open and this engine does not ask)
+	alphabet := []string{"/api", "/api-v2", "/api/v1", "/apix", "/a", "/v1", "/web", "/Admin", "/Admin/Sub"}
 	groups := []string{"/g", "/api"}
 	if safe {
-		alphabet = []string{"/api", "/web", "/v1", "/shop", "/api/v1", "/x1"}
+		alphabet = []string{"/api", "/web", "/v1", "/shop", "/api/v1", "/x1", "/Admin"}
 		groups = []string{"/g", "/grp"}
 	}
 	nsub := s.Range(1, 4)
